@@ -8,6 +8,7 @@ import (
 	_ "verif/props/c17"
 	_ "verif/props/c18"
 	_ "verif/props/c19"
+	_ "verif/props/c20"
 	_ "verif/props/listops"
 )
 
